@@ -377,7 +377,9 @@ func (e *Env) RCommentLines() {
 		e.Run.Violation("R-CURSOR", "applyDecorations records the line starts inside multi-line comments", pos, "no loop over the comment text that appends to the line table")
 		return
 	}
-	// every enclosing condition must be (part of) the multi-line test: inline comment containing "\n"
+	// (that the recording happens for every multi-line comment on every path is decided by the
+	// line-state machine; the textual test below is kept only for code in the original shape)
+	e.lineStateApplyDecorations()
 	okConds := true
 	for _, cd := range conds {
 		g := parseGuard(cd)
@@ -387,8 +389,8 @@ func (e *Env) RCommentLines() {
 		}
 		for a := range atoms {
 			multi := strings.Contains(a, `strings.HasPrefix(d, "/*")`) || strings.Contains(a, `strings.Contains(d, "\n")`) || a == "isMultiLineComment" || a == "isInlineComment"
-			if !multi {
-				okConds = false
+			if !multi && (strings.Contains(a, "firstLine") || strings.Contains(a, "hasCommentField") || a == "end") {
+				okConds = false // nested under the choice of sink
 			}
 		}
 	}
